@@ -11,6 +11,7 @@
      {"op":"storage","sysblock":[hex],"names":[hex]}  → {"model":[bool]}
      {"op":"usage","st":[bsize,frsize,blocks,bfree,bavail,files,ffree,favail,flag,namemax]}
          → {"model":usage,"spec":usage}
+     {"op":"usage","st":[…],"errno":n}   (os.statvfs raises OSError(n)) → {"model":{"kind":"exc","exc":"OSError","errno":n},"spec":null}
      {"op":"sysfs","disks":[{"major":n,"minor":n,"name":hex,"s":[11],"ext":[…],"others":[[hex,hex]],"attrs":[tree],
                              "parts":[{"minor":n,"name":hex,"s":[11],"ext":[…],"others":[[hex,hex]],"attrs":[tree]}]}],
       "procfs":b,"perdisk":b}
@@ -179,6 +180,15 @@ def handle (_ : Unit) (j : Json) : R (Unit × Json) := do
                       ("spec", if unknown then jOut (.exc .valueError) else Json.null)])
   else if op == "usage" then
     let st ← listF asNat j "st"
+    let errno ← optF asNat j "errno"
+    match errno with
+    | some e =>
+      -- os.statvfs raises OSError(errno): the model's call propagates it; the specification is silent
+      let m : Json := match diskUsageCall usageCfg (.error e) with
+        | .raised n => jObj [("kind", "exc"), ("exc", "OSError"), ("errno", jNat n)]
+        | .value _ => jObj [("kind", "exc"), ("exc", "swallowed")]
+      return ((), jObj [("model", m), ("spec", Json.null)])
+    | none =>
     match st with
     | [bsize, frsize, blocks, bfree, bavail, files, ffree, favail, flag, namemax] =>
       let env : List (String × Int) := stNames.zip (st.map Int.ofNat)
